@@ -286,6 +286,52 @@ def yaml_case(draw):
             "stream": draw(st.lists(V.typed_values(max_leaves=5, string_strategy=s, key_strategy=s), max_size=3))}
 
 
+import re as _re
+
+# The emitter's rule set (booleans yes/no/on/off, 0b integers, `_` in numbers, dates) targets YAML 1.1 resolution, and the
+# repository's own suite blesses `1e2` as a bare key (a float only under YAML 1.2), so bare keys are judged against the
+# YAML 1.1 tag resolution rules (yaml.org/type): a bare key must resolve to a string there.
+_YAML11_NONSTRING = _re.compile(
+    # the implicit resolvers of the de-facto YAML 1.1 loader (PyYAML): bool, null, int, float, timestamp, merge, value
+    r"^(?:yes|Yes|YES|no|No|NO|true|True|TRUE|false|False|FALSE|on|On|ON|off|Off|OFF|~|null|Null|NULL||"
+    r"[-+]?0b[0-1_]+|[-+]?0[0-7_]+|[-+]?(?:0|[1-9][0-9_]*)|[-+]?0x[0-9a-fA-F_]+|[-+]?[1-9][0-9_]*(?::[0-5]?[0-9])+|"
+    r"[-+]?(?:[0-9][0-9_]*)\.[0-9_]*(?:[eE][-+][0-9]+)?|\.[0-9][0-9_]*(?:[eE][-+][0-9]+)?|[-+]?[0-9][0-9_]*(?::[0-5]?[0-9])+\.[0-9_]*|"
+    r"[-+]?\.(?:inf|Inf|INF)|\.(?:nan|NaN|NAN)|[0-9][0-9][0-9][0-9]-[0-9][0-9]-[0-9][0-9]|"
+    r"[0-9][0-9][0-9][0-9]-[0-9][0-9]?-[0-9][0-9]?(?:[Tt]|[ \t]+)[0-9][0-9]?:[0-9][0-9]:[0-9][0-9](?:\.[0-9]*)?(?:[ \t]*(?:Z|[-+][0-9][0-9]?(?::[0-9][0-9])?))?|<<|=)$")
+
+
+def bare_key_problem(key):
+    """Why an unquoted mapping key would not be read back as this string by a YAML parser (None if it is fine)."""
+    if _YAML11_NONSTRING.match(key):
+        return "resolves to a non-string under the YAML 1.1 tag resolution rules"
+    if key != key.strip(" ") or any(ord(c) < 0x20 or c == "\x7f" for c in key):
+        return "has leading/trailing blanks or control characters"
+    if key[0] in "-?:,[]{}#&*!|>'\"%@`" and (len(key) == 1 or key[0] not in "-?:" or key[1] == " "):
+        return "starts with an indicator character"
+    if ": " in key or " #" in key or key.endswith(":"):
+        return "contains ': ' or ' #'"
+    return None
+
+
+def check_bare_keys(text, what):
+    """Every unquoted key of a manifestYamlDoc output must be a plain scalar that reads back as the same string."""
+    for line in text.split("\n"):
+        body = line.lstrip(" ")
+        while body.startswith("- "):
+            body = body[2:].lstrip(" ")
+        if not body or body[0] in "\"'[{|>-" or body in ("-",):
+            continue
+        m = _re.match(r"^(.*?):( |$)", body)
+        if not m:
+            continue
+        key = m.group(1)
+        if key.startswith('"'):
+            continue
+        why = bare_key_problem(key)
+        if why:
+            raise Violation("yaml-bare-key", f"{what}: unquoted key {key!a} {why}: {text[:300]!a}")
+
+
 def yaml_ok_value(v):
     return not any(isinstance(x, str) and x.endswith("\n") for x in V.walk(v))
 
@@ -304,6 +350,8 @@ def check_yaml(case):
     if "ok" not in r1[1]:
         raise Violation("yaml-unreadable", f"parseYaml rejects manifestYamlDoc output for {V.show(v)}: "
                         f"{r1[1].get('err')} text={text[:300]!a}")
+    if not case["quote_keys"]:
+        check_bare_keys(text, f"manifestYamlDoc(quote_keys=false) of {V.show(v)}")
     got = r1[1]["ok"]["typed"]
     if not V.same(got, v, zero_sign=False):
         raise Violation("yaml-roundtrip", f"manifestYamlDoc(iaio={case['iaio']}, quote_keys={case['quote_keys']}): "
@@ -328,9 +376,9 @@ def check_yaml(case):
 
 
 CHECKS = [
-    Check("json_family", check_json, json_case, quick=300, thorough=12000),
+    Check("json_family", check_json, json_case, quick=200, thorough=12000),
     Check("layered_objects", check_layered, layered_case, quick=200, thorough=4000),
     Check("python", check_python, python_case, quick=200, thorough=5000),
     Check("toml", check_toml, toml_case, quick=200, thorough=5000),
-    Check("yaml_parseback", check_yaml, yaml_case, quick=300, thorough=8000),
+    Check("yaml_parseback", check_yaml, yaml_case, quick=200, thorough=8000),
 ]
